@@ -46,7 +46,7 @@ func init() {
 			defer r.close()
 			c.Rapid("grammars", c.Pick(1500, 30000), func(t *rapid.T) {
 				fams := []string{"uniform", "uniform-small", "productive", "nullable", "prec", "prec-sep", "separators", "lalr", "dup-rules", "samehandle", "decl"}
-				if rapid.IntRange(0, 149).Draw(t, "big") == 0 {
+				if rare(t, "big", c.Pick(400, 150)) {
 					// grammars at and beyond the 2000-state limit: yaccgo must stop with its diagnostic
 					fams = []string{"blowup", "bigauto", "hugerule"}
 				}
